@@ -161,7 +161,8 @@ def main(tier, seed):
     return tprops.main_T(PID, tier, seed, {21}, "Props.C08",
                          ["Model/Ticker.v", "Oracle/TickerOracle.v", "Model/Sim.v", "Oracle/SimCheck.v", "Oracle/SimOracle.v",
                           "Proofs/TickerP.v", "Model/NSim.v", "Proofs/LatestP.v", "Proofs/EqvP.v", "Proofs/InlineP.v", "Proofs/InlineLoopP.v",
-                          "Proofs/InlineScopeP.v", "Proofs/Confluence2P.v", "Proofs/ScheduleP.v", "Props/C08.v"],
+                          "Proofs/InlineScopeP.v", "Proofs/InlineLatestP.v", "Proofs/WakeWfP.v", "Proofs/ExtentP.v", "Proofs/Confluence2P.v",
+                          "Proofs/ScheduleP.v", "Proofs/SimTraceP.v", "Model/SimTime.v", "Model/Inline.v", "Props/C08.v"],
                          "schedule independence", extra=net_part)
 
 
